@@ -291,8 +291,9 @@ pub fn dep_probe(cfg: Config, script: &DepScript) -> DepOutcome {
     let n = script.n;
     let dep = Arc::new(probe::Dependency::new(n));
     let committed = Arc::new(AtomicUsize::new(0));
-    let status: Arc<Vec<Mutex<(St, usize)>>> =
-        Arc::new((0..n).map(|_| Mutex::new((St::Ready, 0))).collect());
+    // tx_states[i] of the scheduler: the controller-aware facade lock, held across a whole attempt.
+    let status: Arc<Vec<verif::sync::Mutex<(St, usize)>>> =
+        Arc::new((0..n).map(|_| verif::sync::Mutex::new((St::Ready, 0))).collect());
     let executions: Arc<Vec<AtomicUsize>> = Arc::new((0..n).map(|_| AtomicUsize::new(0)).collect());
     let double_claims = Arc::new(Mutex::new(Vec::new()));
     let done = Arc::new(AtomicBool::new(false));
@@ -313,8 +314,8 @@ pub fn dep_probe(cfg: Config, script: &DepScript) -> DepOutcome {
                 let mut handoff: Option<usize> = None;
                 loop {
                     if handoff.is_none() {
-                        verif::spin_begin();
                         ctl.user_point("TW_Loop");
+                        verif::spin_begin();
                         let fin = done.load(Ordering::SeqCst);
                         ctl.user_emit("TW_Loop", vec![("done", Val::B(fin))]);
                         if fin || ctl.aborted() {
@@ -327,9 +328,8 @@ pub fn dep_probe(cfg: Config, script: &DepScript) -> DepOutcome {
                         continue;
                     };
                     // execution_task: the status under the transaction lock is the authority.
-                    ctl.user_point("TW_Task");
                     let (kind, inc) = {
-                        let mut s = status[tx].lock().unwrap();
+                        let mut s = status[tx].lock();
                         match s.0 {
                             St::Ready => {
                                 s.0 = St::Executing;
@@ -356,7 +356,8 @@ pub fn dep_probe(cfg: Config, script: &DepScript) -> DepOutcome {
                         double_claims.lock().unwrap().push(tx);
                     }
                     let k = (inc - 1).min(attempts[tx].len() - 1);
-                    ctl.user_point("TW_Exec");
+                    // execute_task: the transaction lock is held until the status is final.
+                    let mut held = status[tx].lock();
                     let outcome = attempts[tx][k].clone();
                     // A scripted blocker that is already committed cannot be an estimate any more.
                     let outcome = match outcome {
@@ -367,27 +368,22 @@ pub fn dep_probe(cfg: Config, script: &DepScript) -> DepOutcome {
                         }
                         o => o,
                     };
+                    let (kind, b) = match &outcome {
+                        Attempt::Ok => ("ok", -1),
+                        Attempt::Blocked(b) => ("blocked", *b as i64),
+                        Attempt::Error => ("error", -1),
+                        Attempt::Invalid(None) => ("invalid", -1),
+                        Attempt::Invalid(Some(b)) => ("invalid", *b as i64),
+                    };
                     ctl.user_emit(
                         "TW_Exec",
-                        vec![
-                            ("tx", Val::I(tx as i64)),
-                            (
-                                "outcome",
-                                Val::S(match &outcome {
-                                    Attempt::Ok => "ok".into(),
-                                    Attempt::Blocked(b) => format!("blocked:{b}"),
-                                    Attempt::Error => "error".into(),
-                                    Attempt::Invalid(None) => "invalid".into(),
-                                    Attempt::Invalid(Some(b)) => format!("invalid:{b}"),
-                                }),
-                            ),
-                        ],
+                        vec![("tx", Val::I(tx as i64)), ("kind", Val::S(kind.into())), ("b", Val::I(b))],
                     );
                     match outcome {
                         Attempt::Ok => {
                             let next = dep.remove(tx, true);
                             ctl.user_point("TW_Status");
-                            status[tx].lock().unwrap().0 = St::Validated;
+                            held.0 = St::Validated;
                             ctl.user_emit(
                                 "TW_Status",
                                 vec![("tx", Val::I(tx as i64)), ("status", Val::S("Validated".into()))],
@@ -397,7 +393,7 @@ pub fn dep_probe(cfg: Config, script: &DepScript) -> DepOutcome {
                         Attempt::Invalid(hint) => {
                             let next = dep.remove(tx, true);
                             ctl.user_point("TW_Status");
-                            status[tx].lock().unwrap().0 = St::Executed;
+                            held.0 = St::Executed;
                             ctl.user_emit(
                                 "TW_Status",
                                 vec![("tx", Val::I(tx as i64)), ("status", Val::S("Executed".into()))],
@@ -405,7 +401,7 @@ pub fn dep_probe(cfg: Config, script: &DepScript) -> DepOutcome {
                             // validate(): conflict found, re-offer behind the hinted predecessor.
                             dep.add(tx, hint);
                             ctl.user_point("TW_Status");
-                            status[tx].lock().unwrap().0 = St::Ready;
+                            held.0 = St::Ready;
                             ctl.user_emit(
                                 "TW_Status",
                                 vec![("tx", Val::I(tx as i64)), ("status", Val::S("Ready".into()))],
@@ -415,7 +411,7 @@ pub fn dep_probe(cfg: Config, script: &DepScript) -> DepOutcome {
                         Attempt::Blocked(b) => {
                             dep.add(tx, Some(b));
                             ctl.user_point("TW_Status");
-                            status[tx].lock().unwrap().0 = St::Ready;
+                            held.0 = St::Ready;
                             ctl.user_emit(
                                 "TW_Status",
                                 vec![("tx", Val::I(tx as i64)), ("status", Val::S("Ready".into()))],
@@ -424,7 +420,7 @@ pub fn dep_probe(cfg: Config, script: &DepScript) -> DepOutcome {
                         Attempt::Error => {
                             dep.key_tx(tx, &committed);
                             ctl.user_point("TW_Status");
-                            status[tx].lock().unwrap().0 = St::Ready;
+                            held.0 = St::Ready;
                             ctl.user_emit(
                                 "TW_Status",
                                 vec![("tx", Val::I(tx as i64)), ("status", Val::S("Ready".into()))],
@@ -442,9 +438,9 @@ pub fn dep_probe(cfg: Config, script: &DepScript) -> DepOutcome {
             Box::new(move |ctl| {
                 let mut k = 0;
                 while k < n && !ctl.aborted() {
-                    verif::spin_begin();
                     ctl.user_point("TC_Poll");
-                    let ready = status[k].lock().unwrap().0 == St::Validated;
+                    verif::spin_begin();
+                    let ready = status[k].lock().0 == St::Validated;
                     ctl.user_emit("TC_Poll", vec![("tx", Val::I(k as i64)), ("ready", Val::B(ready))]);
                     if !ready {
                         verif::spin_end();
